@@ -85,7 +85,7 @@ Residual(b, p0, n, ord) ==
       nparts == 2^porder
       plen   == n \div nparts
       bad    == [ok |-> FALSE, p |-> p0, out |-> <<>>, method |-> method, porder |-> porder,
-                 params |-> <<>>, escs |-> <<>>, qsum |-> 0, start |-> p0]
+                 params |-> <<>>, escs |-> <<>>, raws |-> <<>>, qsum |-> 0, start |-> p0]
   IN IF method > 1 \/ (porder > 0 /\ n % nparts # 0) \/ plen < ord THEN bad
      ELSE LET r == FoldLeft(LAMBDA st, j :
                  IF ~st.ok THEN st ELSE
@@ -95,11 +95,12 @@ Residual(b, p0, n, ord) ==
                      res == IF esc THEN RawPart(b, st.p + pbits + 5, cnt, GetU(b, st.p + pbits, 5), st.out, st.qsum)
                                    ELSE RicePart(b, st.p + pbits, cnt, k, st.out, st.qsum)
                  IN [p |-> res.p, out |-> res.out, qsum |-> res.qsum, ok |-> res.ok,
-                     params |-> Append(st.params, k), escs |-> Append(st.escs, esc)],
-                 [p |-> p0 + 6, out |-> <<>>, qsum |-> 0, ok |-> TRUE, params |-> <<>>, escs |-> <<>>],
+                     params |-> Append(st.params, k), escs |-> Append(st.escs, esc),
+                     raws |-> Append(st.raws, IF esc THEN GetU(b, st.p + pbits, 5) ELSE 0)],
+                 [p |-> p0 + 6, out |-> <<>>, qsum |-> 0, ok |-> TRUE, params |-> <<>>, escs |-> <<>>, raws |-> <<>>],
                  Idx(1, nparts))
           IN [ok |-> r.ok, p |-> r.p, out |-> r.out, method |-> method, porder |-> porder,
-              params |-> r.params, escs |-> r.escs, qsum |-> r.qsum, start |-> p0]
+              params |-> r.params, escs |-> r.escs, raws |-> r.raws, qsum |-> r.qsum, start |-> p0]
 
 ---------------------------------------------------------------------------
 (* Prediction (RFC 9639 sections 9.2.5, 9.2.6)                             *)
@@ -155,7 +156,7 @@ RestoreLpc(warm, res, coefs, shift) ==
 (* Subframe (RFC 9639 section 9.2)                                         *)
 
 NoRes == [ok |-> TRUE, p |-> 0, out |-> <<>>, method |-> 0, porder |-> 0, params |-> <<>>,
-          escs |-> <<>>, qsum |-> 0, start |-> 0]
+          escs |-> <<>>, raws |-> <<>>, qsum |-> 0, start |-> 0]
 
 SubBad(p, why) ==
   [ok |-> FALSE, why |-> why, kind |-> "bad", order |-> 0, wasted |-> 0, pad |-> 0, ebps |-> 0,
@@ -346,9 +347,8 @@ ResidualSize(r, n, ord) ==
       plen  == n \div np
       cnt(j) == IF j = 1 THEN plen - ord ELSE plen
   IN 6 + FoldLeft(LAMBDA a, j :
-           a + pbits + (IF r.escs[j] THEN 5 ELSE cnt(j) * (r.params[j] + 1)), 0, Idx(1, np))
+           a + pbits + (IF r.escs[j] THEN 5 + cnt(j) * r.raws[j] ELSE cnt(j) * (r.params[j] + 1)), 0, Idx(1, np))
        + r.qsum
-     \* (escaped partitions: raw bits are not derivable from (params, qsum); callers use end - start)
 
 SubSize(s, n) ==
   8 + s.wasted +
